@@ -127,6 +127,18 @@ def check(pid, tier, seed):
             if l.startswith("BAD") and ("did not return" in l or "still alive" in l):
                 found.append({"engine": "wsstress -stallonly", "seed": seed, "why": "a peer that stops reading wedges the connection: " + l[:600],
                               "replay": "harness wsstress -seed %d -n 10 -stallonly" % seed})
+    # --- user calls made while a message handler of the same connection is held inside a transport write
+    fout = os.path.join(d, "userrace.txt")
+    un = 1500 if tier == "quick" else 12000
+    q = C.run([C.HARNESS, "userrace", "-seed", str(seed), "-n", str(un), "-out", fout], cwd=d, timeout=C.engine_timeout())
+    if q.returncode != 0:
+        found.append({"engine": "userrace", "seed": seed, "why": "the process died", "detail": (q.stdout or "")[-3000:]})
+    else:
+        ls = open(fout).read().splitlines()
+        cov["user_call_race_scenarios"] = sum(1 for l in ls if l.startswith("S "))
+        for l in ls:
+            if l.startswith("BAD") and l.split(" ", 2)[2].startswith("C08 "):
+                found.append({"engine": "userrace", "seed": seed, "why": l.split(" ", 2)[2], "replay": "harness userrace -seed %d -n %d, scenario %s" % (seed, un, l.split()[1])})
     # --- mDNS callbacks
     mn = 20000 if tier == "quick" else 300000
     fout, flog = os.path.join(d, "mdnsfuzz.txt"), os.path.join(d, "mdnsfuzz_log.txt")
